@@ -11,4 +11,5 @@ const (
 	// removed, 8 its .dat removed, 9 tmp renamed to rewrite.aof, 10 tmp.dat renamed, 11 RewriteAofFile closed the
 	// old append file, 12 RewriteAofFile opened the new one, 14 rewriteAofFiles returned
 	verifPointAofRewrite = 5
+	verifPointAofFlushStart = 20 // AofFile.Flush: records are buffered, nothing has been written yet
 )
